@@ -434,6 +434,9 @@ def run_case(E, case, prop, with_count=False):
     res = out.cells
     symex = time.time() - t0
     bads = spec_bads(case, d, res, cnt)
+    from .common import aliases_input
+    if aliases_input(out):
+        bads.append(("result aliases caller-owned storage", True))
     wit = witnesses(case, d) if case.get("witness") else []
     dec = decide(inp, bads, rt, witnesses=wit)
     r = {"verdict": dec.verdict, "solver_s": dec.solver_s, "symex_s": symex, "n_queries": dec.n_queries,
